@@ -125,7 +125,7 @@ def _topology(rng: random.Random, nparts: int) -> list[tuple[int, int]]:
     return sorted(pairs)
 
 
-def _gen_script(rng: random.Random, tier: str, profile: str) -> dict:
+def _gen_script_inner(rng: random.Random, tier: str, profile: str) -> dict:
     nparts = rng.choice([2, 2, 3, 3, 4])
     parts, names, part_of = [], [], {}
     for p in range(nparts):
@@ -144,7 +144,7 @@ def _gen_script(rng: random.Random, tier: str, profile: str) -> dict:
     common = rng.choice(lats)
     links = []
     for a, b in _topology(rng, nparts):
-        lat = common if rng.random() < 0.7 else rng.choice(lats)
+        lat = common if rng.random() < 0.7 or profile == "chain" else rng.choice(lats)
         const = None
         if lat_mode and rng.random() < 0.8:
             d = min_delay_ns(lat) + rng.choice([0, 0, 1, 7, int(lat * NS * rng.random())])
@@ -155,6 +155,8 @@ def _gen_script(rng: random.Random, tier: str, profile: str) -> dict:
         links.append([a, b, lat, const])
     minlat = min(l[2] for l in links)
     wchoice = rng.choice(["none", "min", "half", "third", "seventh", "rand", "none", "min"])
+    if profile == "chain":  # windows as long as the smallest legal cross-partition delay
+        wchoice = rng.choice(["none", "min", "min", "half"])
     window = {
         "none": None,
         "min": minlat,
@@ -182,16 +184,20 @@ def _gen_script(rng: random.Random, tier: str, profile: str) -> dict:
         barriers = [start_ns + w_ns * (i + 1) for i in range(span_windows + 4)]
     horizon = start_ns + w_ns * span_windows
     times_used: list[int] = []
-    p_boundary = {"boundary": 0.7, "idle": 0.3}.get(profile, 0.35)
+    p_boundary = {"boundary": 0.7, "idle": 0.3, "chain": 0.8}.get(profile, 0.35)
+    offsets = [0, 0, 0, 0, 0, -1, 1] if profile == "chain" else [-1, 0, 0, 1]
+    p_exact = 0.85 if profile == "chain" else 0.4
 
     def aim(lo: int) -> int:
         """Pick an absolute time >= lo."""
+        if profile == "idle" and rng.random() < 0.5:  # long silence: many windows without any event
+            return lo + rng.randrange(20 * w_ns, max(21 * w_ns, w_ns * span_windows // 2))
         r = rng.random()
         if r < p_boundary:
             cands = [b for b in barriers if b + 1 >= lo]
             if cands:
                 b = rng.choice(cands[: max(1, rng.choice([1, 2, 3, len(cands)]))])
-                t = b + rng.choice([-1, 0, 0, 1])
+                t = b + rng.choice(offsets)
                 if t >= lo:
                     return t
         if r < p_boundary + 0.12 and times_used:
@@ -218,13 +224,16 @@ def _gen_script(rng: random.Random, tier: str, profile: str) -> dict:
     queue: list[tuple[int, str, int]] = []  # (pid, entity, time)
     for _ in range(rng.choice([1, 2, 3, 5])):
         e = rng.choice(names)
-        t = aim(start_ns if rng.random() < 0.3 else start_ns + rng.randrange(0, max(2, w_ns * min(span_windows, 6))))
+        if profile == "idle":
+            t = start_ns + rng.randrange(0, w_ns * span_windows)
+        else:
+            t = aim(start_ns if rng.random() < 0.3 else start_ns + rng.randrange(0, max(2, w_ns * min(span_windows, 6))))
         pid = new_pid()
         init.append([t, e, rng.choice(TYPES), pid])
         times_used.append(t)
         queue.append((pid, e, t))
     made = len(queue)
-    p_cross = rng.choice([0.3, 0.5, 0.8])
+    p_cross = 0.9 if profile == "chain" else rng.choice([0.3, 0.5, 0.8])
     p_yield = rng.choice([0.0, 0.0, 0.15, 0.4])
     while queue:
         pid, ent, t = queue.pop(0 if rng.random() < 0.7 else rng.randrange(len(queue)))
@@ -246,9 +255,9 @@ def _gen_script(rng: random.Random, tier: str, profile: str) -> dict:
                 tgt = rng.choice(parts[dst])
                 dmin = min_delay_ns(lat)
                 r = rng.random()
-                if r < 0.4:
+                if r < p_exact:
                     delay = dmin
-                elif r < 0.55:
+                elif r < p_exact + 0.1:
                     delay = dmin + 1
                 elif r < 0.8:
                     delay = max(dmin, aim(send_t + dmin) - send_t)
@@ -270,13 +279,15 @@ def _gen_script(rng: random.Random, tier: str, profile: str) -> dict:
     all_times = sorted(times_used)
     tmax = all_times[-1]
     choice = rng.choice(["none", "all", "barrier", "event", "event-1", "event+1", "mid", "nrt", "barrier", "all"])
+    if profile == "chain" and rng.random() < 0.7:
+        choice = rng.choice(["barrier", "event"])
     if choice == "none":
         end_ns = None
     elif choice == "all":
         end_ns = tmax + rng.choice([0, 1, w_ns, 3 * w_ns])
     elif choice == "barrier":
         cands = [b for b in barriers if b <= tmax + w_ns] or barriers[:1]
-        end_ns = rng.choice(cands) + rng.choice([0, 0, -1, 1])
+        end_ns = rng.choice(cands) + rng.choice(offsets)
     elif choice == "event":
         end_ns = rng.choice(all_times)
     elif choice == "event-1":
@@ -308,6 +319,14 @@ def _gen_script(rng: random.Random, tier: str, profile: str) -> dict:
         "K": 3 if tier == "quick" else 20,
         "pseed": rng.randrange(1 << 30),
     }
+
+
+def _gen_script(rng: random.Random, tier: str, profile: str) -> dict:
+    case = _gen_script_inner(rng, tier, profile)
+    # long idle stretches: the perturbed repetitions are what costs; keep one (quick) / five (thorough)
+    if _expected_windows(case) > 400:
+        case["K"] = 1 if tier == "quick" else 5
+    return case
 
 
 def gen_profile(profile):
@@ -866,6 +885,41 @@ def check_parallel_against(case, par, seq, res: Result, tag: str):
         for i, rec in enumerate(pl):
             if rec[0] == "x":
                 send_pos[rec[2]] = (p, i, rec[1], rec[3])  # partition, index, send time, stamped arrival
+    def window_barrier(p, i):
+        """Barrier time that closed the window in which record i of partition p was executed."""
+        for b, marks in barriers:
+            if marks[p] > i:
+                return b
+        return None  # executed after the last exchange (final drain)
+
+    def loss_mechanism(pid, arrival):
+        """Why a cross-partition event that was sent did not get delivered: (component, shape, text)."""
+        sp, si, stime, _ = send_pos[pid]
+        dst = info[pid]["dst"]
+        bidx = next((k for k, (_b, marks) in enumerate(barriers) if marks[sp] > si), None)
+        if bidx is None:
+            return comp_co, "exchange-barrier-not-seen", f"pid {pid} sent at {stime} from P{sp} to P{dst}: no exchange followed"
+        b_ns = barriers[bidx][0]
+        prev_b = barriers[bidx - 1][0] if bidx > 0 else case["start_ns"]
+        text = f"pid {pid} sent at {stime} from P{sp} to P{dst}, due {arrival}, exchanged at barrier {b_ns} (window began {prev_b})"
+        overshoot = None
+        for k, rec in enumerate(par["plogs"][dst]):
+            if rec[0] == "d" and rec[1] > arrival:
+                wb = window_barrier(dst, k)
+                if wb is not None and rec[1] > wb:
+                    overshoot = (rec[1], wb)
+                    break
+        if arrival < b_ns:
+            shape = "arrival-before-exchange-barrier"
+            if case["start_ns"] >= 10**15:
+                shape += ";far-from-epoch"
+            return comp_co, shape, text
+        if overshoot is not None:
+            return comp_sim, "dest-ran-past-window-barrier", text + f"; P{dst} delivered an event stamped {overshoot[0]} in the window that ended at {overshoot[1]}"
+        if end_ns is not None and arrival == end_ns and bidx == len(barriers) - 1:
+            return comp_co, "due-at-end-time-exchanged-at-final-barrier", text
+        return comp_co, "other", text
+
     for etime, cur, typ in par["tt"]:
         res.count("time_travel_records")
         if end_ns is not None and etime is not None and etime > end_ns:
@@ -875,39 +929,17 @@ def check_parallel_against(case, par, seq, res: Result, tag: str):
             for pid, inf in info.items()
             if par_count[pid] == 0 and pid in send_pos and pid not in explained and _arrival(case, info, send_pos, pid) == etime
         ]
-        shape = "unmatched-event"
         detail = f"[{tag}] event at {etime} ns type {typ} discarded: partition clock already {cur} ns"
         if cands:
             pid = cands[0]
             explained.add(pid)
-            sp, si, stime, _ = send_pos[pid]
-            # barrier at which it was exchanged = first barrier whose mark covers the send record
-            bidx = next((k for k, (_b, marks) in enumerate(barriers) if marks[sp] > si), None)
-            dst = info[pid]["dst"]
-            if bidx is None:
-                shape = "cross-event;exchange-barrier-not-seen"
-            else:
-                b_ns, marks = barriers[bidx]
-                dst_max = max((r[1] for r in par["plogs"][dst][: marks[dst]] if r[0] == "d"), default=None)
-                prev_b = barriers[bidx - 1][0] if bidx > 0 else case["start_ns"]
-                if etime < b_ns:
-                    shape = "cross-event;arrival-before-exchange-barrier"
-                    if case["start_ns"] >= 10**15:
-                        shape += ";far-from-epoch"
-                elif dst_max is not None and dst_max > b_ns:
-                    shape = "cross-event;dest-ran-past-window-barrier"
-                else:
-                    shape = "cross-event;other"
-                detail += (
-                    f"; pid {pid} sent at {stime} from P{sp} to P{dst}, exchanged at barrier {b_ns} (window began {prev_b}), "
-                    f"P{dst} had already delivered an event at {dst_max}"
-                )
-        else:
-            local = [pid for pid, inf in info.items() if par_count[pid] == 0 and not inf["cross"] and pid in seq_deliv and seq_deliv[pid][0] == etime]
-            if local:
-                explained.add(local[0])
-                shape = "local-event"
-        res.add("cross-event-discarded-as-past" if shape.startswith("cross") else "event-discarded-as-past", comp_sim, shape, detail)
+            comp, shape, text = loss_mechanism(pid, etime)
+            res.add("cross-event-discarded-as-past", comp, "cross-event;" + shape, detail + "; " + text)
+            continue
+        local = [pid for pid, inf in info.items() if par_count[pid] == 0 and not inf["cross"] and pid in seq_deliv and seq_deliv[pid][0] == etime]
+        if local:
+            explained.add(local[0])
+        res.add("event-discarded-as-past", comp_sim, "local-event" if local else "unmatched-event", detail)
 
     # -- equivalence with the sequential run (deliveries with timestamp <= end_time)
     n_cmp = 0
@@ -949,15 +981,14 @@ def check_parallel_against(case, par, seq, res: Result, tag: str):
     if par["status"] == "completed":
         for pid in missing_roots[:3]:
             t, typ, n = seq_deliv[pid]
-            kind = "cross-event" if info[pid]["cross"] else "local-event"
+            where = f"[{tag}] pid {pid} type {typ} delivered to {n} at {t} ns sequentially, never in the parallel run (end_ns={end_ns}, barriers tail {[b for b, _ in barriers[-3:]]})"
+            if info[pid]["cross"] and pid in send_pos:
+                comp, shape, text = loss_mechanism(pid, _arrival(case, info, send_pos, pid))
+                res.add("cross-event-never-delivered", comp, "cross-event;" + shape, where + "; " + text)
+                continue
             at = "at-end-time" if t == end_ns else "before-end-time"
             rt = ";end-time-not-float-roundtrippable" if end_ns is not None and not roundtrips(end_ns) else ""
-            res.add(
-                "delivery-missing",
-                comp_co if info[pid]["cross"] or rt else comp_sim,
-                f"{kind};{at}{rt}",
-                f"[{tag}] pid {pid} type {typ} delivered to {n} at {t} ns sequentially, never in the parallel run (end_ns={end_ns}, barriers tail {[b for b, _ in barriers[-3:]]})",
-            )
+            res.add("delivery-missing", comp_co if rt else comp_sim, f"local-event;{at}{rt}", where)
         for pid in moved[:3]:
             res.add(
                 "delivery-time-differs",
@@ -1231,7 +1262,10 @@ def _prune(case, keep: set[int]) -> dict:
     return c
 
 
-def shrink_script(case, still_fails):
+def shrink_script(case, still_fails, budget_s: float = 2.5):
+    """Remove events (with their subtrees) while the same mechanism key still fires.
+    Wall-clock bounded: shrinking is a convenience, never part of a verdict."""
+    deadline = time.monotonic() + budget_s
     info, _ = _script_index(case)
     pids = sorted(info)
     small = dict(case)
@@ -1239,13 +1273,18 @@ def shrink_script(case, still_fails):
     if not still_fails(small):
         small["K"] = min(case.get("K", 0), 3)
         if not still_fails(small):
-            small = dict(case)
-    kept = ddmin(pids, lambda sub: still_fails(_prune(small, set(sub))), max_tests=120)
+            return case
+
+    def fails(sub):
+        if time.monotonic() > deadline:
+            return False
+        return still_fails(_prune(small, set(sub)))
+
+    kept = ddmin(pids, fails, max_tests=80)
     out = _prune(small, set(kept))
-    # drop unused entities is not attempted: partition structure is part of the witness shape
-    for key, val in (("max_workers", None), ("K", 0)):
+    if time.monotonic() < deadline:
         trial = dict(out)
-        trial[key] = val
+        trial["max_workers"] = None
         if still_fails(trial):
             out = trial
     return out
@@ -1257,18 +1296,20 @@ FAMILIES = {
     "idle": Family("idle", gen_profile("idle"), run_linked, shrink=shrink_script, case_timeout=180.0),
     "far_epoch": Family("far_epoch", gen_profile("far_epoch"), run_linked, shrink=shrink_script, case_timeout=120.0),
     "latency_link": Family("latency_link", gen_profile("latency_link"), run_linked, shrink=shrink_script, case_timeout=120.0),
+    "chain": Family("chain", gen_profile("chain"), run_linked, shrink=shrink_script, case_timeout=120.0),
     "independent": Family("independent", gen_independent, run_independent, case_timeout=120.0),
     "config": Family("config", gen_config, run_config, case_timeout=60.0),
 }
 
 BUDGET = {
-    "quick": {"linked": 160, "boundary": 120, "idle": 24, "far_epoch": 40, "latency_link": 40, "independent": 60, "config": 30},
+    "quick": {"linked": 160, "boundary": 120, "idle": 24, "far_epoch": 40, "latency_link": 40, "chain": 60, "independent": 60, "config": 30},
     "thorough": {
         "linked": 6000,
         "boundary": 5000,
         "idle": 400,
         "far_epoch": 1200,
         "latency_link": 1200,
+        "chain": 2000,
         "independent": 1500,
         "config": 200,
     },
